@@ -21,6 +21,9 @@ func (authentication *Authentication) Marshal() ([]byte, error) {
 }
 
 func (authentication *Authentication) Unmarshal(b []byte) error {
+	if len(b) == 0 {
+		return errors.Errorf("Authentication: Empty payload body")
+	}
 	if len(b) > 0 {
 		// bounds checking
 		if len(b) <= 4 {
